@@ -253,7 +253,10 @@ def _counts(rep, ctx, flows, cg):
             got = unit_summary(g)
             summ = saved
             nprim += 1
-            ok = got is not None and got == tuple(pathsum.COUNT[n])
+            if got is None:
+                rep.cannot_decide('COUNT.primitive', where(fn), '%s appends particles inside a loop: its count is not a path sum' % fn['name'])
+                continue
+            ok = got == tuple(pathsum.COUNT[n])
             rep.add('COUNT.primitive', n, where(fn), '%s appends %s particle(s) on every path of its body' %
                     (fn['name'], '%d..%d' % tuple(pathsum.COUNT[n]) if pathsum.COUNT[n][0] != pathsum.COUNT[n][1] else pathsum.COUNT[n][0]),
                     ok, None if ok else ['computed from the body: %s; assumed by the unit summaries: %s' %
